@@ -1511,8 +1511,11 @@ def main():
                     # every rule is a leader or memoizable, so every re-entry should have met the entry planted when
                     # the rule was entered.  Which parser setting brings the protection back tells what removed it.
                     diag = o.get('diag', {})
-                    hidden_memo = has_cycle_within(true_graph, [i for i, ri in enumerate(o['ri_opt']) if ri[1]]) \
-                        and on_cycle(true_graph) != on_cycle([sorted(set(r)) for r in mo['graph']])
+                    # a HIDDEN cycle (of the true left graph, not of the analysed one) whose only protection is the guard entry of a
+                    # memoizable rule on it - the other rules of the cycle may be @nomemo (finding D10d, whatever the decorators)
+                    oc_true, oc_seen = on_cycle(true_graph), on_cycle([sorted(set(r)) for r in mo['graph']])
+                    hidden_nodes = [i for i in range(len(oc_true)) if oc_true[i] and not oc_seen[i]]
+                    hidden_memo = bool(hidden_nodes) and any(o['ri_opt'][i][1] for i in hidden_nodes)
                     if diag.get('bigcache') in ('ok', 'fail'):
                         if diag.get('need') is None:
                             cause = 'protection-evicted-from-memo-cache:unwatched'
